@@ -1,19 +1,23 @@
-// C02: a received stack secret whose index component is not a bijection on {0..n-1} is refused on import
+// C02: a received stack secret whose index component is not a bijection on {0..n-1} is refused on import.
+// The text is concrete except for ONE index digit (the last one), which is symbolic over 0..9; the preceding digits are
+// enumerated by slices (every symbolic character multiplies the cost of the text parser, see DESIGN.md A.9).
 #include "vfh_gmp.hh"
 #include "TMCG_StackSecret.hh"
 #include "VTMF_CardSecret.hh"
 #include <string>
 #ifndef H_N
-#define H_N 3
+#define H_N 2
+#endif
+#ifndef H_PREFIX
+#define H_PREFIX 0        /* decimal number whose digits are the first n-1 indices, e.g. 10 for (1,0,x) */
 #endif
 H_ENTRY(h_sts_import) {
   unsigned idx[H_N];
+  { unsigned pre = H_PREFIX; for (int i = (int)H_N - 2; i >= 0; --i) { idx[i] = pre % 10; pre /= 10; } }
+  idx[H_N - 1] = (unsigned)vf_nondet_below(10);
   std::string s = "sts^";
   s += (char)('0' + H_N); s += '^';
-  for (unsigned i = 0; i < H_N; ++i) {
-    idx[i] = (unsigned)vf_nondet_below(10);
-    s += (char)('0' + idx[i]); s += "^crs|5|^";
-  }
+  for (unsigned i = 0; i < H_N; ++i) { s += (char)('0' + idx[i]); s += "^crs|5|^"; }
   TMCG_StackSecret<VTMF_CardSecret> ss;
   bool ok = false;
   H_TRY(ok = ss.import(s));
